@@ -29,6 +29,7 @@ import Driver.VerifyFmtPbkdf
 import Driver.VerifyFmtMisc
 import Driver.VerifyFmtStatic
 import Driver.VerifyFmtDesBcrypt
+import Driver.VerifyFmtWrap
 import Driver.TotpTime
 import Driver.CtxIni
 import Driver.CodeDes
@@ -73,6 +74,7 @@ def dispatch (line : String) : String :=
   | "vfyM" :: rest => Driver.VerifyFmtMisc.handle rest
   | "vfyS" :: rest => Driver.VerifyFmtStatic.handle rest
   | "vfyD" :: rest => Driver.VerifyFmtDesBcrypt.handle rest
+  | "vfyW" :: rest => Driver.VerifyFmtWrap.handle rest
   | "ttime" :: rest => Driver.TotpTime.handle rest
   | "cini" :: rest => Driver.CtxIni.handle rest
   | "cdes" :: rest => Driver.CodeDes.handle rest
